@@ -67,6 +67,25 @@ pub enum TimeTriggerInterval {
     Year(i64),
 }
 
+impl TimeTriggerInterval {
+    /// Intervals are limited to 100 000 years: beyond that the date arithmetic
+    /// of the trigger (and chrono's range of dates and durations) overflows.
+    #[cfg(feature = "config_parsing")]
+    fn within_limits(&self) -> bool {
+        const YEARS: i64 = 100_000;
+        let (n, max) = match *self {
+            TimeTriggerInterval::Second(n) => (n, YEARS * 366 * 24 * 60 * 60),
+            TimeTriggerInterval::Minute(n) => (n, YEARS * 366 * 24 * 60),
+            TimeTriggerInterval::Hour(n) => (n, YEARS * 366 * 24),
+            TimeTriggerInterval::Day(n) => (n, YEARS * 366),
+            TimeTriggerInterval::Week(n) => (n, YEARS * 53),
+            TimeTriggerInterval::Month(n) => (n, YEARS * 12),
+            TimeTriggerInterval::Year(n) => (n, YEARS),
+        };
+        n <= max
+    }
+}
+
 impl Default for TimeTriggerInterval {
     fn default() -> Self {
         TimeTriggerInterval::Second(1)
@@ -175,7 +194,11 @@ impl<'de> serde::Deserialize<'de> for TimeTriggerInterval {
             }
         }
 
-        d.deserialize_any(V)
+        let interval = d.deserialize_any(V)?;
+        if !interval.within_limits() {
+            return Err(de::Error::custom("the interval is too large (limit: 100000 years)"));
+        }
+        Ok(interval)
     }
 }
 
